@@ -62,7 +62,7 @@ CHECKS.update({
         design="§6 C09",
     ),
     "C10": dict(
-        text="Lean 4 theorem stats_complete: after calibrate() on >=1 sample every non-constant operand/result of every op selected for min/max quantization has recorded min/max (so quantize() cannot find them missing); both stages use one scope function in the model and both real scope builders are compared per op; calibrate-then-quantize executed over regex-heavy recipes incl. multi-signature models.",
+        text="Lean 4 theorem stats_complete: after calibrate() on >=1 sample every non-constant operand/result of every op selected for min/max quantization has recorded min/max (so quantize() cannot find them missing), lifted to any sequence of resumed calibration sessions (C10c.stats_complete_after_sessions via C09c.resume_many); both stages use one scope function in the model and both real scope builders are compared per op; calibrate-then-quantize executed over regex-heavy recipes incl. multi-signature models.",
         note="C10b: with a recorded entry the materialisation wrapper takes neither missing-statistics raise site (wrapper_uses_recorded_stats) and after calibrate() every selected operator's runtime operand is looked up successfully (calibrated_lookup_never_missing); equality of the two Python scope builders is established by execution on every op of every generated model, not by proof",
         design="§6 C10",
     ),
